@@ -9,6 +9,7 @@ SN = 'src/de/snippet.rs'
 RANGE = (r'\(0x80\.\.=0x9F\)\.contains\(&(\w+)\[i \+ 1\]\)', r'(0x80 <= \1[i + 1] && \1[i + 1] <= 0x9F)', None, 'R24')
 ITEMS = [
     dict(src=SN, path='fn is_terminal_snippet_clean', props=['C17', 'C01'],
+         bounded=dict(harness='bounded/snippet.rs', items=[('src/de/snippet.rs', 'fn is_terminal_snippet_clean')], cfgs=['has_clean']),
          loop_rewrites=[(1, 'slice')], rewrites=[RANGE],
          proofs=[dict(before='return false;', nth=1, text='assert(bad_ascii(b@[__i1 - 1]));'),
                  dict(before='return false;', nth=2, text='assert(c1_at(b@, i as int));')],
@@ -24,6 +25,7 @@ ITEMS = [
          },
          canaries=['C17:decides_terminal_safety_exactly']),
     dict(src=SN, path='fn sanitize_terminal_snippet_preserve_len', props=['C17', 'C01'],
+         bounded=dict(harness='bounded/snippet.rs', items=[('src/de/snippet.rs', 'fn sanitize_terminal_snippet_preserve_len')], cfgs=['has_sanitize']),
          loop_rewrites=[(1, 'iter_mut')],
          rewrites=[RANGE,
                    (r's\.into_bytes\(\)', 'string_into_bytes(s)', None, 'R8'),
